@@ -143,6 +143,7 @@ class Facts:
             if role == "mgr" and len(frames) >= 2 and frames[0][0].endswith("loky/backend/synchronize.py") and frames[0][2] in ("__enter__", "acquire"):
                 if "processes_management_lock" in _lc.getline(frames[1][0], frames[1][1]):
                     sig["mgr_blocked_on_management_lock"] = True
+                    sig["broken_path"] = any(fr[2] == "terminate_broken" for fr in frames)
         sig["mgr_in"] = roles.get("mgr", [None])[0]
         sig["feeder_in"] = roles.get("feeder", [None])[0]
         users = [u for u in roles.get("user", []) if u]
